@@ -1460,6 +1460,7 @@ func init() {
 			{Name: "json-roundtrip", Count: nt, Run: c13JSON},
 			{Name: "display", Count: nt, Run: c13Display},
 			{Name: "strings-produced-by-members", Count: func(string) int { return c13StringsCount() }, Run: func(_ string, idx int, r *Result) { c13StringsRun(idx, r) }},
+			{Name: "floats-close-to-each-other", Count: func(string) int { return c13FloatsCount() }, Run: func(_ string, idx int, r *Result) { c13FloatsRun(idx, r) }},
 			{Name: "prog-eq", Count: func(tier string) int { return 2 * len(c13Pairs(tier)) }, Run: c13ProgEq},
 			{Name: "prog-json-string", Count: func(tier string) int { return 2 * len(c13Singles(tier)) }, Run: c13ProgJSON},
 			{Name: "prog-clone", Count: func(tier string) int { return 2 * len(c13Singles(tier)) }, Run: c13ProgClone},
